@@ -141,6 +141,27 @@ def handle (op : String) (args : List String) (impl : String) : Option Verdict :
           | none => false
       | _ => false
     return ⟨model, ok, s!"histbtc:deliveries={min runs.length 4}:fault={runs.any fun r => faulted r.1 r.2.1}"⟩
+  | "tick", [kind, answers] => some <| Id.run do
+    let some v := (chars answers).mapM ansOf | return bad
+    let model := (if allExecuted v then "true" else "false") ++ "|" ++ joinOr ((asked v).map toString) ","
+    let ok := match impl.splitOn "|" with
+      | [r, _] => (r == "true" || r == "false") && decide (PTick v (r == "true"))
+      | _ => false
+    return ⟨model, ok, s!"tick:{kind}:n={min v.length 4}:all={allExecuted v}:err={v.any (· = .err)}"⟩
+  | "watch", [kind, n, script] => some <| Id.run do
+    let some n := n.toNat? | return bad
+    let some sc := (items script "/").mapM (fun t => (chars t).mapM ansOf) | return bad
+    if sc.any (·.length ≠ n) || n = 0 then return bad
+    let showSweeps := fun (ss : List (List Nat)) => joinOr (ss.map fun x => joinOr (x.map toString) ",") "/"
+    let model := (match watch sc with | some t => s!"closed@{t}" | none => "waiting") ++ "|" ++ showSweeps (sweeps sc)
+    let ok := match impl.splitOn "|" with
+      | [r, _] =>
+        if r == "waiting" then decide (PWatch sc none)
+        else match r.splitOn "@" with
+          | ["closed", t] => (match t.toNat? with | some t => decide (PWatch sc (some t)) | none => false)
+          | _ => false
+      | _ => false
+    return ⟨model, ok, s!"watch:{kind}:n={min n 4}:ticks={min sc.length 4}:closed={(watch sc).isSome}:pendingAtSomeTick={sc.any (·.any (· ≠ .exec))}"⟩
   | "submit", [kind, outcome, gas, ns] => some <| Id.run do
     let some ns := natList ns | return bad
     let g := if kind = "evm" then gas else "-"
